@@ -889,12 +889,13 @@ class IterInventory:
         self.param_types = {}        # (fn, param) -> (type, how)
         self.fn_returns = {}         # fn -> type | [types]
         self.loop_built = {}         # (fn, name) -> True: dict filled by subscript stores inside a for-loop over a set
+        self.ctor_arg_sets = {}      # positional index -> how: some lib class is constructed with a set at that position (exception arguments)
         self.sites = []
         for _round in range(4):
-            before = (len(self.set_attrs), len(self.param_types), len(self.loop_built), repr(sorted((f.key, str(v)) for f, v in self.fn_returns.items())))
+            before = (len(self.set_attrs), len(self.param_types), len(self.loop_built), len(self.ctor_arg_sets), repr(sorted((f.key, str(v)) for f, v in self.fn_returns.items())))
             self._memo = {}
             self._globals_pass()
-            after = (len(self.set_attrs), len(self.param_types), len(self.loop_built), repr(sorted((f.key, str(v)) for f, v in self.fn_returns.items())))
+            after = (len(self.set_attrs), len(self.param_types), len(self.loop_built), len(self.ctor_arg_sets), repr(sorted((f.key, str(v)) for f, v in self.fn_returns.items())))
             if before == after:
                 break
         self._memo = {}
@@ -1047,6 +1048,9 @@ class IterInventory:
             return None
         if isinstance(e, ast.NamedExpr):
             return self.ty(f, e.value, stack)
+        if isinstance(e, ast.Subscript) and isinstance(e.value, ast.Attribute) and e.value.attr == 'args' and \
+                isinstance(e.slice, ast.Constant) and e.slice.value in self.ctor_arg_sets:
+            return (SET, 'exception argument: ' + self.ctor_arg_sets[e.slice.value])
         return None
 
     def _globals_pass(self):
@@ -1075,6 +1079,11 @@ class IterInventory:
                 # parameters fed with sets
                 if isinstance(n, ast.Call):
                     name = call_name(n)
+                    if name in sc.classes and not any(g.name == '__init__' for g in sc.class_methods.get(name, [])):
+                        for i, a in enumerate(n.args):
+                            t = self.ty(f, a)
+                            if t and t[0] == SET:
+                                self.ctor_arg_sets.setdefault(i, f'{name}(…) in {f.qual} gets a set as argument {i}')
                     targets = [g for g in sc.by_fname.get(name, []) if not g.is_import]
                     if name in sc.classes:
                         targets += [g for g in sc.class_methods.get(name, []) if g.name == '__init__']
